@@ -284,6 +284,11 @@ def points(tier: str) -> List[Dict[str, Any]]:
             for content in ("same-q/no-ka", "same-q/ka-split"):
                 pts.append({"fam": "tc", "n": 1, "gaps": [], "terminated": False, "content": content, "tc_jitter": tj,
                             "order": "timer-first", "sources": 1, "sight_ms": sight})
+    for sight in (250, 330, 399):
+        for tj in (0.0, 1.0):
+            for plain in (50, 200):
+                pts.append({"fam": "tc", "n": 1, "gaps": [], "terminated": False, "content": "same-q/no-ka", "tc_jitter": tj,
+                            "order": "timer-first", "sources": 1, "sight_ms": sight, "plain_ms": plain})
     # the same scenarios on an IPv6-only host (every 7th point; sources are 4-tuples there)
     pts += [dict(p, v6=True) for p in pts[::7]]
     return pts
@@ -390,7 +395,7 @@ def _run_point(p: Dict[str, Any], verbose: bool = False) -> Tuple[Optional[Dict[
                             dropped_identical = True
         else:
             t_begin = s0 + 5000
-            w.advance_to_ms(t_begin - 1)
+            w.advance_to_ms(t_begin - (100 if p.get("plain_ms") is not None else 1))
             judge_tc(problems, w, host, p, t_begin)
         excs = w.exceptions()
         if excs:
@@ -440,6 +445,14 @@ def judge_tc(problems: List[str], w: World, host: Any, p: Dict[str, Any], t_begi
     if p.get("sight_ms") is not None:
         w.loop.call_at((t_begin + p["sight_ms"]) / 1000, w.net.inject, host,
                        wire.response([ka_ptr1, ka_ptr2, ("PTR", TB, 1, 4500, S3.name)]), src_tuple("10.0.0.77"))
+    if p.get("plain_ms") is not None:
+        # another querier asks something else meanwhile, and its answer is under the one-second protection too (seen 100 ms
+        # before the train began): a protected answer is already waiting when the train's answer joins the queue
+        w.net.inject(host, wire.response([("PTR", TB, 1, 4500, S3.name)]), src_tuple("10.0.0.77"))
+        w.settle()
+        w.advance_to_ms(t_begin)
+        w.loop.call_at((t_begin + p["plain_ms"]) / 1000, w.net.inject, host, wire.query([("Q", TB, 12, 1)], id_=77),
+                       src_tuple("10.0.0.97"))
     if p["order"] == "packet-first":
         for t, data, src, tc in script:
             w.loop.call_at(t / 1000, w.net.inject, host, data, src_tuple(src))
@@ -453,6 +466,17 @@ def judge_tc(problems: List[str], w: World, host: Any, p: Dict[str, Any], t_begi
     trace_all = [Decoded(s) for s in w.net.trace if s.host == host.name]
     trace = [d for d in trace_all if d.t_ms >= t_begin]
     answers = [(d.t_ms, [key(ident(r)) for r in d.msg.answers], d) for d in trace if d.multicast and d.is_response]
+    if p.get("plain_ms") is not None:
+        # what is owed to the other querier is not the train's business (its own envelope: protected, so between one second
+        # after the sighting at -100 ms and 1.2 s after its arrival)
+        mine = key(("PTR", TB.lower(), 1, S3.name.lower()))
+        t_plain = [t for t, ks, d in answers if mine in ks]
+        lo, hi = t_begin - 100 + 1000, t_begin + p["plain_ms"] + 1200
+        if len(t_plain) != 1 or not (lo - 0.5 <= t_plain[0] <= hi + 0.5):
+            problems.append(f"plain: the other querier's protected answer was multicast at {[round(t - t_begin) for t in t_plain]} ms, "
+                            f"owed once in [{lo - t_begin:.0f}, {hi - t_begin:.0f}]")
+        answers = [(t, [k for k in ks if k != mine], d) for t, ks, d in answers]
+        answers = [a for a in answers if a[1]]
     seen = wire_sightings(w, host)
     by_src: Dict[str, List[Tuple[float, int, bool]]] = {}
     for i, (t, data, src, tc) in enumerate(script):
